@@ -342,6 +342,34 @@ def phases(ctx, uberjob, MemStore, Trunc, check_chain):
             ctx.broke("C19 harness: nested scenario did not fail", where)
         except uberjob.CallError as e:
             expect("run/nested-run-in-" + where, "nested", e, pred, lb)
+    # many plans built, failed and dropped one after the other (addresses get reused): every error's message lists the frames
+    # of its own call
+    import gc
+    import re as _re
+    src_lines = {}
+    mism = None
+    for round_ in range(60):
+        ns = {}
+        code = "def build_%d(plan, fn):\n%s    return plan.call(fn, %d)\n" % (round_, "    pass\n" * (round_ % 7), round_)
+        exec(compile(code, "/ujgen/rounds_%d.py" % round_, "exec"), ns)
+        p = uberjob.Plan()
+        node = ns["build_%d" % round_](p, boom)
+        try:
+            uberjob.run(p, output=node, progress=None, max_workers=1)
+        except uberjob.CallError as e:
+            msg = str(e)
+            sf = e.call.stack_frame
+            first = (sf.path, sf.line, sf.name)
+            listed = _re.findall(r'File "(.*)", line (\d+), in (.*)', msg)
+            if not listed or (listed[-1][0], int(listed[-1][1]), listed[-1][2]) != first:
+                mism = (round_, first, listed[-1:] )
+                break
+        del p, node, ns
+        gc.collect()
+    ctx.case(("phase", "many-rounds"))
+    if mism:
+        ctx.fail("phase:message-of-another-call", "after %d earlier failed plans were dropped, the message of a new error ends with frame %r although its call was created at %r"
+                 % (mism[0], mism[2], mism[1]), {"round": mism[0]})
     # store write fails
     for fail, tag in (("write", "run/store-write"), ("read", "run/store-read-back")):
         p, r = uberjob.Plan(), uberjob.Registry()
